@@ -57,6 +57,7 @@ class RobotHooks:
         self.fault_budget = fault_budget
         self.fault_mode = fault_budget > 0
         self.faults = []
+        self.fms = None
         self.events = []
         self.world = None
 
@@ -74,7 +75,14 @@ class RobotHooks:
             return None
         return NotImplemented
 
+    def on_decide(self, it, atom, val, node):
+        if atom[0] == "truthy" and "isFMSAttached" in str(atom[-1]) and self.fms is None:
+            self.fms = val
+
     def decide(self, it, atom, node):
+        # the FMS does not come and go between two reads of one control-loop iteration
+        if atom[0] == "truthy" and "isFMSAttached" in str(atom[-1]) and self.fms is not None:
+            return self.fms
         # in fault mode optional component hooks are taken to be present (their absence is explored without faults)
         if atom[0] == "isnone" and "[]#" in str(atom[-1]):
             # optional component hooks: absence is explored for the first list element, without faults
@@ -93,7 +101,7 @@ class RobotHooks:
         if fn.path.endswith(".getSelected"):
             it.emit("ext", fn.path, args, kwargs, node=node, callee=fn)
             return Ext("selected_mode", "user", role="result", maybe_none=True)
-        if fn.origin == "user" and self.fault_budget > 0:
+        if fn.origin == "user" and self.fault_budget > 0 and is_callback_path(fn.path):
             ev = it.emit("user", fn.path, args, kwargs, node=node, callee=fn)
             if it.choose(2, ("fault", fn.path)):
                 self.fault_budget -= 1
@@ -199,3 +207,13 @@ def cb_name(ev):
     """normalised callback label: robot.teleopPeriodic, component[i].execute, feedback[i].get, mode.on_iteration ..."""
     n = ev.name
     return n
+
+
+import re as _re
+
+_NOT_CB = _re.compile(r"(\[\]#\d+\[1\]$)|(\.__dict__\.update$)|(\.__setattr__$)|(\.__setitem__$)")
+
+
+def is_callback_path(path):
+    """user code the framework *calls back*: not the NetworkTables setter of a feedback pair, not dict updates"""
+    return _NOT_CB.search(path) is None
